@@ -23,7 +23,7 @@ RULE = ("(sched) real Prefetcher / ParallelMapper(thread) under the deterministi
         "reset(loaded state), errors, final _shutdown(), INCLUDING join timeouts; after the consumer's script ends the scheduler keeps running the remaining "
         "threads: every background thread of every generation must terminate on its own (no thread left with a pending step, bounded by the step budget); every "
         "step replayed on ConcModel.v; (sdl) real StatefulDataLoader, W in 0..3, persistent or not, map-style and iterable: histories over iter / next / "
-        "exhaust / drop the iterator / state_dict / load_state_dict; after every operation the live worker processes (multiprocessing.active_children, waiting "
+        "exhaust / drop the iterator / state_dict / load_state_dict, plus start-up failures (worker_init_fn raising; the k-th Process.start() failing); after every operation the live worker processes (multiprocessing.active_children, waiting "
         "up to 8 s for exits) are compared, as sets of pid-generations, with the process-table model SdlProcs.v; start-up failure (worker_init_fn raising) must "
         "leave no process; (rt) nodes pipelines with thread and process workers in real time: after every epoch / reset / drop the live threads and children are "
         "counted; non-trivial = history with >=1 reset/load/drop; distinct = distinct (configuration, history, schedule)")
@@ -52,7 +52,7 @@ def gen_cases(rng, tier, drift):
         for _ in range(rng.randint(2, 7)):
             ops.append(rng.choice(["iter", "next", "next", "exhaust", "drop", "state", "load", "exhaust"]))
         out.append(dict(kind="sdl", W=W, persistent=(W > 0 and rng.random() < 0.4), ds=rng.choice(["map", "iter"]), n=rng.randint(3, 8),
-                        ops=ops, init_error=(W > 0 and i % 10 == 9)))
+                        ops=ops, init_error=(W > 0 and i % 10 == 9), start_fail=(rng.randint(1, W - 1) if (W >= 2 and i % 5 == 4) else None)))
     for i in range(nrt):
         out.append(dict(kind="rt", node=rng.choice(["pf", "pm_thread", "pm_thread", "pm_process"]), n=rng.randint(3, 8), nw=rng.choice([1, 2]),
                         epochs=rng.randint(2, 4), take=[rng.randint(0, 9) for _ in range(4)], error_at=rng.choice([None, None, rng.randint(0, 4)])))
@@ -96,6 +96,24 @@ def _wait_empty(max_wait):
         time.sleep(0.1)
 
 
+class _FailingStartCtx(multiprocessing.context.ForkContext):
+    """a fork context whose k-th Process.start() fails (EAGAIN-style), as when the OS refuses another process"""
+
+    def __init__(self, k):
+        super().__init__()
+        self._k, self._n = k, 0
+        ctx = self
+
+        class P(multiprocessing.context.ForkProcess):
+            def start(self):
+                if ctx._n == ctx._k:
+                    ctx._n += 1
+                    raise OSError(11, "Resource temporarily unavailable (injected)")
+                ctx._n += 1
+                return super().start()
+        self.Process = P
+
+
 class InitBoom:
     def __call__(self, worker_id):
         if worker_id == 0:
@@ -129,6 +147,23 @@ def run_sdl(c):
             if left:
                 fails.append(f"{len(left)} worker process(es) still alive {bound:.0f} s after a failed start-up")
             return dict(oracle="; ".join(fails) or None, nontrivial=True, key=[c[k] for k in sorted(c)])
+        if c.get("start_fail") is not None:
+            for attempt in range(2):
+                dl = si.make_loader(cfg, multiprocessing_context=_FailingStartCtx(c["start_fail"]))
+                try:
+                    it = iter(dl)
+                    fails.append("Process.start() failed for one worker but iter(dl) returned")
+                except OSError:
+                    pass
+                except BaseException as e:  # noqa
+                    fails.append(f"Process.start() failure surfaced as {type(e).__name__}")
+                it = None
+                del dl
+            bound = 5.0 * W + 6.0
+            left = _wait_empty(bound)
+            if left:
+                fails.append(f"{len(left)} worker process(es) started before a failing Process.start() are still alive after {bound:.0f} s")
+            return dict(oracle="; ".join(fails[:2]) or None, nontrivial=True, key=[c[k] for k in sorted(c)])
         dl = si.make_loader(cfg)
         it, saved = None, []
         gen_of, ngen = {}, 0
